@@ -94,7 +94,10 @@ Fixpoint env_bad (k : nat) (groups : list bytes) (e : list (Z * bytes)) : bool :
   | _, _ => true
   end.
 
-Record spst := { sp_ms : list bytes; sp_fwd : list dconf; sp_alive : bool; sp_q : bytes; sp_last : option bytes }.
+(* sp_run: between a Start and the next Stop; sp_q: the query of the Start that opened this period (a Start while
+   running is not a start); sp_alive: an instance runs; sp_last: the URL the last instance connected to *)
+Record spst := { sp_ms : list bytes; sp_fwd : list dconf; sp_run : bool; sp_alive : bool; sp_q : bytes;
+                 sp_last : option bytes }.
 
 Definition sp_step (sp : spst) (o : op) (ob : obs) : spst :=
   let ms := match o with OReload (Some m) _ => m | _ => sp_ms sp end in
@@ -104,8 +107,9 @@ Definition sp_step (sp : spst) (o : op) (ob : obs) : spst :=
                | OSrcStop | OSrcFail => false
                | _ => sp_alive sp
                end in
-  let q := match o with OSrcStart q => q | _ => sp_q sp end in
-  {| sp_ms := ms; sp_fwd := fwd; sp_alive := alive; sp_q := q;
+  let q := match o with OSrcStart q => if sp_run sp then sp_q sp else q | _ => sp_q sp end in
+  let run := match o with OSrcStart _ => true | OSrcStop => false | _ => sp_run sp end in
+  {| sp_ms := ms; sp_fwd := fwd; sp_run := run; sp_alive := alive; sp_q := q;
      sp_last := match rev (ob_src ob) with v :: _ => Some v | [] => sp_last sp end |}.
 
 Definition obs_bad (name : bytes) (tmpl : option bytes) (sp : spst) (ob : obs) : bool :=
@@ -118,6 +122,11 @@ Definition obs_bad (name : bytes) (tmpl : option bytes) (sp : spst) (ob : obs) :
       | Some v => negb (bytes_eqb v (single_pass_source t (sp_ms sp) (sp_q sp)))
       | None => true
       end
+      ||
+      (* every instance created during the step: the groups current after the step, the query of the request that
+         opened the period *)
+      values_valid (sp_ms sp) && template_ok (src_cfg (sp_ms sp)) t &&
+      existsb (fun v => negb (bytes_eqb v (single_pass_source t (sp_ms sp) (sp_q sp)))) (ob_src ob)
   | None => false
   end.
 
@@ -132,6 +141,6 @@ Definition spec_fail (c : case) : bool :=
   | Src t ms q ok out => values_valid ms && negb (bytes_eqb out (single_pass_source t ms q))
   | Dst t path ms ok out => values_valid (path :: ms) && negb (bytes_eqb out (single_pass_dest t path ms))
   | Life name ms0 fwd0 tmpl ob0 steps =>
-      let sp := {| sp_ms := ms0; sp_fwd := fwd0; sp_alive := false; sp_q := []; sp_last := None |} in
+      let sp := {| sp_ms := ms0; sp_fwd := fwd0; sp_run := false; sp_alive := false; sp_q := []; sp_last := None |} in
       obs_bad name tmpl sp ob0 || life_bad name tmpl sp steps
   end.
